@@ -141,7 +141,10 @@ def make_interp(w: World):
     for nm in ("issubscriptedgeneric", "isstdlibtype"):
         I.stubs[f"typelib.py.inspection.{nm}"] = Stub(f"inspection.{nm}", (lambda nm: lambda I, p, a, k: SBool(uw.uf(nm, 1, BoolS)(to_val(a[0]))))(nm), f"{nm} (C17)")
     I.stubs["typelib.py.inspection.qualname"] = Stub("inspection.qualname", lambda I, p, a, k: SV(uw.uf("qualname", 1)(to_val(a[0]))), "qualname(x): a str")
-    I.stubs["typelib.py.refs.forwardref"] = Stub("refs.forwardref", lambda I, p, a, k: SV(fwdref(to_val(a[0]))),
+    def forwardref_stub(I, p, a, k):
+        w.cur.setdefault("fwd_calls", []).append((len(a), sorted(kk for kk, vv in k.items() if kk == "module" and vv is not None)))
+        return SV(fwdref(to_val(a[0])))
+    I.stubs["typelib.py.refs.forwardref"] = Stub("refs.forwardref", forwardref_stub,
                                                  "refs.forwardref(<type>, ...) is a ForwardRef pinned to that type (C11: a-reference-made-from-a-type-is-pinned-to-that-type)")
 
     def level(I, path, a, k):
@@ -408,6 +411,9 @@ def obligations(chk):
         pid = f"p{pi}"
         for nm, pc, goal in obls:
             chk.add(Ob(func, nm, pid, pc, goal, {"split": True}))      # one query per invariant conjunct, shared instantiation
+        calls = cur["state"].get("fwd_calls", [])
+        chk.add(Ob(func, "cut-references-are-spelled-as-a-context-lookup-spells-them (refs.forwardref(<member>), no module of its own)", pid, path.hyps,
+                   z3.BoolVal(all(npos == 1 and not mods for npos, mods in calls)), {"calls": calls}))
         if out.kind == "end":
             continue
         hy = path.hyps
